@@ -12,7 +12,7 @@ REPO = os.environ.get("VERIF_REPO", "/repo")
 FILE_PROPS = [("numbat/src/list.rs", ["C18"]), ("numbat/src/ffi/lists.rs", ["C18", "C09"]), ("numbat/src/quantity.rs", ["C11", "C12", "C21", "C04", "C05"]),
               ("numbat/src/unit.rs", ["C11", "C12"]), ("numbat/src/lib.rs", ["C06", "C02"]), ("numbat/src/ffi/procedures.rs", ["C21"]),
               ("numbat/src/html_formatter.rs", ["C20"]), ("numbat/src/markup.rs", ["C20"]), ("numbat/src/vm.rs", ["C09", "C11", "C12", "C04"]),
-              ("numbat/src/bytecode_interpreter.rs", ["C09"]), ("numbat-cli/src/main.rs", ["C22"]), ("numbat/src/session_history.rs", ["C07"]), ("numbat/src/resolver.rs", ["C17"]), ("numbat/src/parser.rs", ["C10"]), ("numbat/src/tokenizer.rs", ["C10", "C08"]), ("numbat/src/ffi/math.rs", ["C08"]), ("numbat/src/ffi/macros.rs", ["C08"]), ("numbat/src/parse_quantity.rs", ["C10", "C08"]), ("numbat/src/typechecker/mod.rs", ["C02"]), ("numbat/src/typechecker/constraints.rs", ["C02"]), ("numbat/src/typed_ast.rs", ["C02"])]
+              ("numbat/src/bytecode_interpreter.rs", ["C09"]), ("numbat-cli/src/main.rs", ["C22"]), ("numbat/src/session_history.rs", ["C07"]), ("numbat/src/resolver.rs", ["C17"]), ("numbat/src/parser.rs", ["C10"]), ("numbat/src/tokenizer.rs", ["C10", "C08"]), ("numbat/src/ffi/math.rs", ["C08"]), ("numbat/src/ffi/macros.rs", ["C08"]), ("numbat/src/parse_quantity.rs", ["C10", "C08"]), ("numbat/src/typechecker/mod.rs", ["C02"]), ("numbat/src/typechecker/constraints.rs", ["C02"]), ("numbat/src/typed_ast.rs", ["C02"]), ("numbat/src/typechecker/substitutions.rs", ["C02"]), ("numbat/src/typechecker/const_evaluation.rs", ["C02", "C08"])]
 
 
 def harmless():
